@@ -660,6 +660,10 @@ impl TypeChecker {
 
             S::ExternalDefinition { var, ty, span, .. } => {
                 let ty = self.resolve_type(ctx, ty)?;
+                // There's no body that could tell - an external is only pure if it says so.
+                if let Type::Function(args, ret, Purity::Undefined) = self.find_type(ty) {
+                    self.find_node_mut(ty).ty = Type::Function(args, ret, Purity::Impure);
+                }
                 self.unify(*span, ctx, self.variables[*var].ty, ty)?;
             }
 
